@@ -8,6 +8,8 @@ import (
 	"regexp"
 	"sort"
 	"strings"
+	"sync"
+	"sync/atomic"
 
 	"verif/harness/evid"
 	"verif/harness/oracle"
@@ -31,15 +33,34 @@ type c18Acct struct {
 // C18 checks listing soundness, completeness and key fidelity before and after dynamic account creation.
 func C18(cfg Cfg) int {
 	run := evid.New("C18", cfg.Tier, cfg.Seed, "exploration")
+	c18Body(run, cfg, cfg.N(150, 5000), "c18")
+	// The same workload (fewer tables, the concurrent listing phase included) under the race detector.
+	raceChild(run, cfg, "C18race")
+	return run.Finish()
+}
+
+func init() {
+	Children["C18race"] = func(cfg Cfg) int {
+		run := evid.New("C18race", cfg.Tier, cfg.Seed, "exploration")
+		c18Body(run, cfg, cfg.N(30, 200), "c18race")
+		fmt.Printf("RACE-CHILD operations %d\n", run.Get("accounts_returned"))
+		if run.NumViolations() > 0 {
+			fmt.Println("CHILD-VIOLATION the listing oracle failed under the race detector (see the parent's own run for details)")
+		}
+		return 0
+	}
+}
+
+func c18Body(run *evid.Run, cfg Cfg, tables int, dirName string) int {
 	run.Rule = "a real in-memory fetcher over 3 non-deterministic wallets x 4 accounts and a distributed wallet on a 2-instance cluster; permission tables from the C07 generator (per-account patterns included); request path lists of 1-5 paths mixing wallet-only, wallet/expression, unknown wallets, malformed paths and duplicates; the same again after accounts are created through Dirk (a single-participant generation and a 2-of-2 distributed generation); service and handler boundary; " +
 		"soundness: every returned account is allowed 'Access account' by the reference model and lies in a requested wallet; completeness: every allowed account whose wallet is requested exactly and whose name fully matches the path's expression is returned; fidelity: names and public keys (composite and share key for distributed accounts) equal the harness's record; distinct = (phase, path-list shape, boundary, returned/expected counts) classes"
 	run.Assume = []string{"completeness uses the narrowest reading of 'matches' (whole-name, case-sensitive match of the path's expression)"}
 	r := cfg.Rand("c18")
 	wallets := map[string][]string{"Wallet1": {"acct1", "acct2", "val", "b"}, "Wallet2": {"acct1", "acct10", "VAL", "bb"}, "Cold": {"acct2", "val", "b", "xb"}}
-	c, err := rig.NewCluster(rig.ClusterOpts{Dir: cfg.Dir("c18"), IDs: []uint64{1, 2}, NDWallets: wallets})
+	c, err := rig.NewCluster(rig.ClusterOpts{Dir: cfg.Dir(dirName), IDs: []uint64{1, 2}, NDWallets: wallets})
 	if err != nil {
 		run.Inconclusive(err.Error())
-		return run.Finish()
+		return 0
 	}
 	defer c.Close()
 	inst := c.Inst[1]
@@ -50,7 +71,6 @@ func C18(cfg Cfg) int {
 		}
 	}
 	sort.Slice(accts, func(i, j int) bool { return accts[i].wallet+"/"+accts[i].name < accts[j].wallet+"/"+accts[j].name })
-	tables := cfg.N(150, 5000)
 	for t := 0; t < tables && run.NumViolations() < 5; t++ {
 		phase := "static"
 		if t == tables/2 {
@@ -110,7 +130,11 @@ func C18(cfg Cfg) int {
 			run.Inconclusive(err.Error())
 			break
 		}
-		for q := 0; q < 12; q++ {
+		var firstSample atomic.Bool
+		if t > 0 {
+			firstSample.Store(true)
+		}
+		oneQuery := func(r *rand.Rand) {
 			paths, shape := c18Paths(r)
 			client := []string{"client1", "client2", "stranger"}[r.Intn(3)]
 			via := Via(r.Intn(2))
@@ -123,7 +147,7 @@ func C18(cfg Cfg) int {
 				res, as := lst.ListAccounts(context.Background(), &checker.Credentials{Client: client, RequestID: "r"}, paths)
 				if res != core.ResultSucceeded {
 					run.Violate(fmt.Sprintf("listing returned %s", res), paths)
-					continue
+					return
 				}
 				for _, a := range as {
 					gt := got{name: a.(e2wtypes.AccountWalletProvider).Wallet().Name() + "/" + a.Name(), pub: a.PublicKey().Marshal()}
@@ -137,7 +161,7 @@ func C18(cfg Cfg) int {
 				res, err := lh.ListAccounts(rig.HandlerCtx(client, "10.0.0.1"), req)
 				if err != nil || res.GetState() != pb.ResponseState_SUCCEEDED {
 					run.Violate(fmt.Sprintf("listing handler returned %v / %v", res.GetState(), err), paths)
-					continue
+					return
 				}
 				res = roundTrip(res, &pb.ListAccountsResponse{})
 				for _, a := range res.GetAccounts() {
@@ -214,15 +238,34 @@ func C18(cfg Cfg) int {
 			run.Count("accounts_returned", len(gots))
 			run.Count("accounts_expected", expected)
 			run.Distinct(fmt.Sprintf("%s %s %s returned=%d expected=%d", phase, shape, viaName(via), min(len(gots), 9), min(expected, 9)))
-			if t == 0 && q == 0 {
+			if t == 0 && firstSample.CompareAndSwap(false, true) {
 				run.Sample(witness)
 			}
+		}
+		for q := 0; q < 12; q++ {
+			oneQuery(r)
+		}
+		if t%25 == 3 {
+			// The same kind of queries from several clients at the same time: each answer is judged on its own.
+			var wg sync.WaitGroup
+			for w := 0; w < 12; w++ {
+				wg.Add(1)
+				wr := rand.New(rand.NewSource(cfg.Seed*9173 + int64(t*10+w)))
+				go func() {
+					defer wg.Done()
+					for q := 0; q < 2500; q++ {
+						oneQuery(wr)
+					}
+				}()
+			}
+			wg.Wait()
+			run.Count("concurrent_listing_rounds", 1)
 		}
 	}
 	if run.Get("accounts_returned") == 0 || run.Get("accounts_created_through_dirk") == 0 {
 		run.Inconclusive("nothing listed or no account created through Dirk")
 	}
-	return run.Finish()
+	return 0
 }
 
 func c18Paths(r *rand.Rand) ([]string, string) {
